@@ -508,6 +508,15 @@ def run_queries(ctx, rng, op, queries, layout, mode):
             _state['declared'] = (op, new_mode)
         ctx.observe('query:' + tag)
         _state['tag'] = tag
+        r_ = rng.random()
+        # (float32 arguments are not driven: the code then computes log10 P in single precision, and the 1e-10 oracle
+        # would judge single-precision rounding at region boundaries, which the statement does not speak about)
+        if r_ < 0.12:
+            T, P = np.array(T), np.array(P)              # 0-d arrays
+            ctx.observe('argtype:0-d-array')
+        elif r_ < 0.24 and float(T).is_integer():
+            T = int(T)                                   # a whole-number temperature as a Python int
+            ctx.observe('argtype:int-temperature')
         route = rng.integers(0, 4)
         if route == 0:
             op.compute_opacity(T, P)
